@@ -22,7 +22,7 @@ func init() {
 	register(&PropDef{
 		ID:    "C04",
 		Level: "exploration",
-		Rule: "seeded histories over one envelope slot per run (a sample of them, and every history that brings a document under a published scenario, executed again by a second OS process and compared byte for byte): business edits incl. edits derived from the published definitions (scenario conditions, payment means keys, extension codes, tax categories) and from other corpus documents (transplanted members, grafted list entries), calculate (library and cli.Build over a simulated stream), persist, restore (drop the live object, parse the durable bytes), lost write, content-preserving re-encoding of the durable bytes, clock jumps, entropy reseeds, read-only operations, k-fold repetition on fresh copies; " +
+		Rule: "seeded histories over one envelope slot per run (a sample of them, and every history that brings a document under a published scenario, executed again by a second OS process and compared byte for byte): business edits incl. edits derived from the published definitions (scenario conditions, payment means keys, extension codes, tax categories) and from other corpus documents (transplanted members, grafted list entries), calculate (library and cli.Build over a simulated stream), persist, restore (drop the live object, parse the durable bytes), lost write, content-preserving re-encoding of the durable bytes, clock jumps, entropy reseeds, read-only operations, k-fold repetition on fresh copies; sub-check minimal: every example source with one member left out (thorough: pairs of top-level members too) calculated, restored from its bytes and calculated again; sub-check typenames: every type name the command line accepts resolved repeatedly and in a second process; " +
 			"a case is distinct by (document, plan shape, trace hash) and non-trivial when at least one restart/lost-write/re-encode/clock-jump fault fired before a checked calculate",
 		Assumptions: []string{
 			"documents are the repository's example corpus plus seeded business edits of it; other document shapes are not reached",
